@@ -191,6 +191,11 @@ def build_traces(path, tier, seed):
             a = np.abs(a) if dt_ is np.uint8 else np.asarray(a, dtype=float)
             a = np.round(a / (np.max(np.abs(a)) + 1e-300) * top).astype(dt_)
             shape += " (%s counts)" % np.dtype(dt_).name
+            if dt_ is not np.uint8 and rng.integers(2):
+                # the most negative count of the type (it has no absolute value in the type itself) is the record's peak
+                a[int(rng.integers(n))] = np.iinfo(dt_).min
+                shape += " with the most negative count"
+                fn = "obj"
             if rng.integers(2):
                 dt = int(rng.integers(1, 4))
         elif rng.integers(8) == 0:   # magnitudes whose squares leave the double range (2^-560 .. 2^520): |x| itself is ordinary
